@@ -211,7 +211,7 @@ def check_op(opname, op, tier, stats):
         elif (real == "DataTypeError") != (out == "DataTypeError") and not out.startswith("EXC:") and not real.startswith("EXC:"):
             vs.append(viol("colfn-agrees-with-return_type", opname, sig, f"{out}!={real}", {}))
     # (2) uniformity
-    generic = {"Int": [tname(t) for t in SIZED_INT], "Float": ["Float32", "Float64"], "Decimal": ["Decimal(10, 2)", "Decimal(12, 4)"]}
+    generic = {"Int": [tname(t) for t in SIZED_INT], "Float": ["Float32", "Float64"], tname(Decimal()): ["Decimal(10, 2)", "Decimal(12, 4)"]}
     for sig, out in tab.items():
         if not out.startswith("T:"):
             continue
